@@ -137,7 +137,27 @@ class Poly:
                     m[a] = m.get(a, 0) + e
                 k = tuple(sorted(((a, e) for a, e in m.items() if e != 0), key=_key))
                 d[k] = d.get(k, 0) + v1 * v2
-        return Poly(d)
+        return Poly(d)._simplify_even_powers()
+
+    def _simplify_even_powers(self):
+        """|p|^2 -> p^2 and sqrt(p)^2 -> p, whichever way the square was written (x**2, x*x, square(x))"""
+        if not any(a[0] in ('Abs', 'Sqrt') and e >= 2 for k in self.t for a, e in k):
+            return self
+        out = Poly()
+        for k, v in self.t.items():
+            term_ = Poly.const(v)
+            for a, e in k:
+                if a[0] in ('Abs', 'Sqrt') and e >= 2:
+                    inner = a[1]
+                    n_in = (e // 2) * (2 if a[0] == 'Abs' else 1)
+                    for _ in range(n_in):
+                        term_ = term_ * inner
+                    if e % 2:
+                        term_ = term_ * Poly({((a, 1),): Fraction(1)})
+                else:
+                    term_ = term_ * Poly({((a, e),): Fraction(1)})
+            out = out + term_
+        return out
 
     def __rmul__(self, o):
         if isinstance(o, AT):
@@ -1153,9 +1173,46 @@ def jnp_squeeze(a, axis=None):
 
 def jnp_expand_dims(a, axis):
     a = to_at(a)
+    if isinstance(axis, (tuple, list)):
+        nd = len(a.axes) + len(axis)
+        for k in sorted(_dim(x) % nd for x in axis):
+            a = jnp_expand_dims(a, k)
+        return a
     k = _dim(axis) % (len(a.axes) + 1)
     ax = a.axes[:k] + (1,) + a.axes[k:]
     return AT(ax, a.data.reshape(tuple(x for x in ax if isinstance(x, int))))
+
+
+def jnp_diagonal(a, offset=0, axis1=0, axis2=1):
+    a = to_at(a)
+    if len(a.axes) != 2 or not all(isinstance(x, int) for x in a.axes) or offset != 0 or (axis1, axis2) not in ((0, 1), (-2, -1)):
+        raise Top("diagonal of a non-matrix / with offset")
+    n = min(a.axes)
+    return AT((n,), np.array([a.data[i, i] for i in range(n)], dtype=object))
+
+
+def jnp_broadcast_to(a, shape):
+    """numpy broadcasting of `a` to `shape` (entries: ints, extents of named axes, symbolic counts)"""
+    a = to_at(a)
+    tgt = list(shape_axes(shape))
+    while len(a.axes) < len(tgt):
+        a = jnp_expand_dims(a, 0)
+    if len(a.axes) != len(tgt):
+        raise Finding(f"cannot broadcast a tensor with axes {a.axes} to shape {tuple(tgt)}")
+    axes, data = list(a.axes), a.data
+    for k, (src, t) in enumerate(zip(a.axes, tgt)):
+        if src == t:
+            continue
+        if src != 1:
+            raise Finding(f"cannot broadcast axis {k} of extent {src} to {t}")
+        ck = AT(axes, data).cidx(k)
+        if isinstance(t, int):
+            data = np.repeat(data, t, axis=ck)
+            axes[k] = t
+        else:
+            data = np.take(data, 0, axis=ck)      # constant along the new named axis
+            axes[k] = t
+    return AT(tuple(axes), data)
 
 
 def jnp_atleast_2d(a):
@@ -1269,8 +1326,11 @@ def jnp_tile(a, reps):
     if isinstance(reps, (int, Poly, SymDim)):
         reps = (reps,)
     reps = tuple(reps)
-    if len(reps) != len(a.axes):
-        raise Top("tile with rank change")
+    # numpy semantics: the shorter of (reps, shape) is padded with leading ones
+    while len(reps) > len(a.axes):
+        a = jnp_expand_dims(a, 0)
+    if len(reps) < len(a.axes):
+        reps = (1,) * (len(a.axes) - len(reps)) + reps
     axes = list(a.axes)
     data = a.data
     for k, r in enumerate(reps):
